@@ -327,7 +327,22 @@ func gqid(buf []byte, qid *Qid) []byte {
 
 func gstat(buf []byte, d *Dir, dotu bool) ([]byte, error) {
 	sz := len(buf)
+	if sz < 2 {
+		return nil, &Error{"Buffer too short for a stat size", EINVAL}
+	}
 	d.Size, buf = gint16(buf)
+	if int(d.Size) > len(buf) {
+		s := fmt.Sprintf("stat size %d exceeds the buffer: have %d", d.Size, len(buf))
+		return nil, &Error{s, EINVAL}
+	}
+	// the record is buf[0:d.Size]; rest is what follows it
+	rest := buf[d.Size:]
+	buf = buf[0:d.Size]
+	if len(buf) < 2+4+13+4+4+4+8 { /* type[2] dev[4] qid[13] mode[4] atime[4] mtime[4] length[8] */
+		s := fmt.Sprintf("Buffer too short for basic 9p: need %d, have %d",
+			49, sz)
+		return nil, &Error{s, EINVAL}
+	}
 	d.Type, buf = gint16(buf)
 	d.Dev, buf = gint32(buf)
 	buf = gqid(buf, &d.Qid)
@@ -362,6 +377,9 @@ func gstat(buf []byte, d *Dir, dotu bool) ([]byte, error) {
 			return nil, &Error{"d.Ext failed", EINVAL}
 		}
 
+		if len(buf) < 4+4+4 { /* n_uid[4] n_gid[4] n_muid[4] */
+			return nil, &Error{"d.Uidnum failed", EINVAL}
+		}
 		d.Uidnum, buf = gint32(buf)
 		d.Gidnum, buf = gint32(buf)
 		d.Muidnum, buf = gint32(buf)
@@ -371,7 +389,11 @@ func gstat(buf []byte, d *Dir, dotu bool) ([]byte, error) {
 		d.Muidnum = NOUID
 	}
 
-	return buf, nil
+	if len(buf) != 0 {
+		return nil, &Error{"stat size does not match the record", EINVAL}
+	}
+
+	return rest, nil
 }
 
 func pint8(val uint8, buf []byte) []byte {
